@@ -649,6 +649,23 @@ def tail(n):
     return n
 
 
+def fn_result(h):
+    """What a whole function evaluates to, for rules of the form "this function is exactly <expr>": the tail expression
+    when the body has no user-written `return`; with early returns, the single unconditional result if there is one,
+    else a placeholder node {"k": "Multi"} that no rule accepts - a function that answers some inputs on another path
+    (a guard clause, a fast path) is not "exactly <expr>"."""
+    body = h["body"]
+    rets = [r for r in exprs(body, "Ret", into_closures=False) if not r.get("x")]
+    if not rets:
+        return tail(body)
+    import sem
+    S = sem.Sem(None, h, inline=False)
+    leaves = S.result_leaves()
+    if len(leaves) == 1 and not leaves[0].pc_has_conditions() and not leaves[0].in_loop:
+        return tail(leaves[0].node)
+    return {"k": "Multi", "n": len(leaves), "sp": h.get("span", "")}
+
+
 def walk_arms(n, stack=()):
     """pre-order walk yielding (node, arm_stack); arm_stack = tuple of (match scrutinee type, [variant paths]
     or ['_']) for every enclosing match arm, outermost first. Also records if/else as ('if', cond-node, bool)."""
